@@ -326,7 +326,7 @@ def cases(tier, what="forward"):
             for pat in ("generic", "with_zeros"):
                 for o in ("relu", "selu", "tanh", "sigmoid"):
                     add(o, [s], pats=[pat], form=form)
-                for sl in (None, 0.01, 0.2, 0, 1):
+                for sl in (None, 0.01, 0.2, 0, 1, -0.5, 1.5):
                     add("leaky_relu", [s], {"slope": sl}, pats=[pat], form=form)
     # --- softmax family: every rank 1-4 shape x every dim
     SM = [s for s in (lattice.shapes(3) + [(2, 3, 2, 2), (1, 2, 1, 3), (2, 1, 3, 1)] + (list(itertools.product((1, 2, 3), repeat=4)) if tier != "quick" else [])) if len(s) >= 1]
